@@ -105,6 +105,10 @@ pub fn cycles<const V: u32>(d: &mut Driver<V>, p: &Params, ncycles: u64, heap_mb
         WALK_AT_RESUME.store(false, std::sync::atomic::Ordering::Relaxed);
     }
     let page_per_object = arg_or("plan", "") == "PageProtect";
+    // MarkCompact reserves max(one word, VM::MAX_ALIGNMENT) bytes in front of every object: the
+    // budget of a cycle counts what an object really occupies
+    let per_object_overhead =
+        if arg_or("plan", "") == "MarkCompact" { if V & 2 != 0 { 4096 } else { 64 } } else { 0 };
     let one_survivor = flag("survivor");
     for c in 0..ncycles {
         reset(2000 + c);
@@ -178,7 +182,7 @@ pub fn cycles<const V: u32>(d: &mut Driver<V>, p: &Params, ncycles: u64, heap_mb
             }
             Driver::<V>::root_set(0, 0, r);
             Driver::<V>::root_set(0, 1, 0);
-            allocated += if page_per_object { size.max(4096) } else { size };
+            allocated += if page_per_object { size.max(4096) } else { size + per_object_overhead };
             count += 1;
             if mid_gc && !mid_done && allocated >= gc_at {
                 // a collection while everything is still live
